@@ -1,7 +1,167 @@
-//! C16 oracle (filled in later)
-use crate::inbound::In;
-use crate::simnet::Violation;
-pub fn send_probe(_s: &mut In) -> bool { false }
-pub fn final_check(_s: &In) -> Result<(), Violation> { Ok(()) }
+//! C16: no sequence of well-formed peer packets can panic or hang an endpoint.
+use std::time::Duration;
 
-pub fn configs(_tier: crate::check::Tier) -> Vec<crate::inbound::InCfg> { Vec::new() }
+use crate::check::{Check, Tier};
+use crate::inbound::*;
+use crate::outbound::SK;
+use crate::refmqtt::{self as rf, Pkt, Ver};
+use crate::simnet::{ExploreCfg, Violation, step};
+use crate::world::*;
+
+fn viol(s: &In, clause: &str, wit: String, msg: String) -> Violation {
+    Violation::new(clause, format!("{} {}", s.cfg.ep.label(), wit), format!("{msg}; {}", s.detail()))
+}
+
+pub const PROBE_TAG: u8 = 0xEE;
+
+/// Is the endpoint still serving? Server: PINGREQ must be answered. Client: a QoS 0 PUBLISH must reach the handler.
+pub fn send_probe(s: &mut In) -> bool {
+    // a frame that was deliberately left incomplete swallows whatever follows: nothing to probe
+    if s.sent.iter().any(|x| matches!(x.t, T::PubPartial { .. })) {
+        return false;
+    }
+    let ver = s.conn.ver();
+    if s.cfg.ep.role == Role::Server {
+        let b = rf::encode(ver, &Pkt::PingReq);
+        s.conn.send_raw(&b);
+    } else {
+        let p = rf::publish(0, 0, "t", &[PROBE_TAG]);
+        let b = rf::encode(ver, &p);
+        s.conn.send_raw(&b);
+    }
+    true
+}
+
+pub fn final_check(s: &In) -> Result<(), Violation> {
+    let stops = s.conn.log.stops();
+    let kinds: Vec<String> = s.sent.iter().map(|x| format!("{:?}", x.t).split([' ', '(', '{']).next().unwrap_or("").to_string()).collect();
+    // witness: the packet kinds of the sequence without repetition (order kept), coarse enough to be a class
+    let mut uniq: Vec<String> = Vec::new();
+    for k in &kinds {
+        if !uniq.contains(k) {
+            uniq.push(k.clone());
+        }
+    }
+    let wit = uniq.join(",");
+    if stops.len() > 1 {
+        return Err(viol(s, "stop-twice", wit, format!("control service received {} Stop notifications: {stops:?}", stops.len())));
+    }
+    if stops.is_empty() && !s.conn.done() {
+        if s.probe_sent {
+            let answered = if s.cfg.ep.role == Role::Server {
+                s.conn.out.iter().any(|(st, p)| *st >= s.probe_step && matches!(p, Pkt::PingResp))
+            } else {
+                s.conn.log.count(|r| matches!(r, Rec::HPayload { bytes, .. } if bytes.first() == Some(&PROBE_TAG))) > 0
+            };
+            if !answered {
+                return Err(viol(s, "hang", wit, "connection is up (no Stop) but does not process a probe packet any more".into()));
+            }
+        }
+    } else if let Some(st) = stops.first() {
+        // a connection ended by the peer's packets must say why: protocol error, unless a packet of the
+        // sequence legitimately ends the connection (DISCONNECT; client role: PUBREL for an unknown id closes)
+        let legit = s.sent.iter().any(|x| matches!(x.t, T::Disconnect | T::DisconnectExpiry) || (s.cfg.ep.role == Role::Client && matches!(x.t, T::PubRel(_))));
+        if !legit && !st.starts_with("Stop:Proto") {
+            return Err(viol(s, "wrong-stop-reason", wit, format!("well-formed packets ended the connection with {st} instead of a protocol error")));
+        }
+    } else if s.conn.done() && !s.cfg.skip_connect {
+        // connection future finished without any Stop notification
+        return Err(viol(s, "ended-without-stop", wit, "connection task completed but the control service never saw a Stop".into()));
+    }
+    let _ = step();
+    Ok(())
+}
+
+pub fn alphabet(ver: Ver, role: Role) -> Vec<T> {
+    let q = |qos: u8, id: u16| T::Pub { qos, id, len: 1, topic: 0, alias: 0 };
+    let mut a = vec![
+        q(0, 0),
+        q(1, 0),
+        q(1, 1),
+        q(2, 0),
+        T::PubSplit { qos: 1, id: 0, len: 6 },
+        T::PubPartial { qos: 1, id: 0, len: 6 },
+        T::PubRel(1),
+        T::PubRel(9),
+        T::PubAck(1),
+        T::PubAck(9),
+        T::PubRec(1),
+        T::PubRec(2),
+        T::PubComp(1),
+        T::PubComp(2),
+        T::Sub(0),
+        T::SubBad(0),
+        T::Unsub(0),
+        T::SubAck(1),
+        T::UnsubAck(1),
+        T::Ping,
+        T::PingResp,
+        T::Connect,
+        T::ConnAck,
+        T::Disconnect,
+        T::PubRetain { qos: 1 },
+        T::PubWild,
+    ];
+    if ver == Ver::V5 {
+        a.push(T::Auth);
+        a.push(T::DisconnectExpiry);
+        a.push(T::SubId(0));
+        a.push(T::Pub { qos: 0, id: 0, len: 1, topic: 3, alias: 1 });
+    }
+    let _ = role;
+    a
+}
+
+pub fn configs(tier: Tier) -> Vec<InCfg> {
+    let mut v = Vec::new();
+    for (ver, role) in crate::c05::roles() {
+        // application states: idle / outstanding sends / two gated handlers / instead of the handshake
+        for state in 0..4 {
+            let mut ep = EpCfg::new(ver, role);
+            ep.handler_auto = state != 2;
+            ep.proto_auto = true;
+            let app_sends = if state == 1 {
+                let mut a = vec![SK::Q1, SK::Q2Hold];
+                if role == Role::Client {
+                    a.push(SK::Sub);
+                }
+                a
+            } else {
+                vec![]
+            };
+            let prologue = if state == 2 { vec![T::Pub { qos: 1, id: 7, len: 1, topic: 0, alias: 0 }, T::Pub { qos: 2, id: 8, len: 1, topic: 0, alias: 0 }] } else { vec![] };
+            if state == 3 && role == Role::Client {
+                continue;
+            }
+            v.push(InCfg {
+                ep,
+                connect_props: vec![],
+                alphabet: alphabet(ver, role),
+                prologue,
+                max_len: if tier == Tier::Quick { 3 } else { 4 },
+                outcomes: vec![GateOutcome::Ok],
+                poutcomes: vec![GateOutcome::Ok],
+                cork: false,
+                judge: J_C16,
+                app_sends,
+                skip_connect: state == 3,
+                known: vec![],
+            });
+        }
+    }
+    v
+}
+
+pub fn run(tier: Tier) -> i32 {
+    let mut ck = Check::new("C16", tier, Duration::from_secs(if tier == Tier::Quick { 50 } else { 2400 }));
+    let ecfg = ExploreCfg { max_dev: 0, max_execs: if tier == Tier::Quick { 600_000 } else { 30_000_000 }, ..Default::default() };
+    for (i, c) in configs(tier).iter().enumerate() {
+        ck.explore::<In>("inbound", i, c, &ecfg);
+    }
+    ck.rule = format!(
+        "per role and version: every sequence of up to {} well-formed packets over an alphabet of 26-30 templates (every packet type incl. those illegal in that direction, ids in use / free / unknown, PUBLISH complete / split / left incomplete / duplicate id / retain / wildcard topic / alias, second CONNECT, every ack type) against 4 application states (idle; outstanding QoS1+QoS2(+SUBSCRIBE) sends; two gated publish handlers; instead of the handshake), handler completions interleaved; oracle: no panic, poll horizon never hit, at most one Stop, Stop reason is a protocol error unless a DISCONNECT (or client-side unknown PUBREL) is in the sequence, and a connection without Stop still answers a probe packet after the drain",
+        if tier == Tier::Quick { 3 } else { 4 }
+    );
+    ck.assumptions = vec!["FIFO task order of ntex-rt; nondeterminism = timing of environment events (DESIGN 2.4)".into()];
+    ck.finish()
+}
